@@ -290,7 +290,10 @@ def eval_case(case: dict) -> dict:
         viol.append({"klass": None, "sig": f"malformed-{code}", "detail": f"{code} at byte {off}: {detail}; near {out[max(0, off - 30):off + 30]!r}; deviations {case.get('dev')} of anchor '{anchor}'"})
     nrows = sum(1 for pg in d.pages for blk in pg.blocks if blk.kind == "row")
     npic = sum(1 for pg in d.pages for blk in pg.blocks if blk.kind == "pict")
-    return {"viol": viol, "nt": (nrows > 0 or npic > 0) and bool(case.get("dev")), "cnt": {"encoded": 1, "pages>=2": len(d.pages) >= 2, "table_rows": nrows, "pictures": npic}}
+    return {"viol": viol, "nt": (nrows > 0 or npic > 0) and bool(case.get("dev")), "cnt": {"encoded": 1, "pages>=2": len(d.pages) >= 2, "table_rows": nrows, "pictures": npic},
+            "sample": {"anchor": anchor, "deviations": case.get("dev"), "bytes": len(out), "pages": len(d.pages), "table_rows": nrows, "pictures": npic,
+                       "reader_errors": len(d.errors)}} if len(case.get("dev") or {}) == 2 else {"viol": viol, "nt": (nrows > 0 or npic > 0) and bool(case.get("dev")),
+            "cnt": {"encoded": 1, "pages>=2": len(d.pages) >= 2, "table_rows": nrows, "pictures": npic}}
 
 
 def plan(run):
